@@ -9,6 +9,7 @@ from dataclasses import dataclass, field
 from typing import Any, Dict, List, Optional, Tuple
 
 from .program import AnalysisError, Program
+from .scope import in_scope
 
 VERIF = os.path.dirname(os.path.dirname(os.path.abspath(__file__)))
 
@@ -39,6 +40,7 @@ class Ctx:
         self.notes: List[str] = []
         self.rules_run: List[str] = []
         self.extra: Dict[str, Any] = {}
+        self.out_of_scope: List[Dict[str, str]] = []
 
     # -- recording -----------------------------------------------------------
     def ok(self, rule: str, instance: str, nontrivial: bool = True, sample: Any = None) -> None:
@@ -48,6 +50,11 @@ class Ctx:
 
     def violation(self, rule: str, file: str, function: str, construct: str, loc: str, message: str, **detail: Any) -> None:
         key = f"{rule}|{file}|{function}|{construct}"
+        if not in_scope(self.prop, rule, function, construct):
+            # a genuine rule failure, but not a necessary condition of THIS property (see scope.py): reported by the properties it belongs to
+            if not any(o["key"] == key for o in self.out_of_scope):
+                self.out_of_scope.append({"key": key, "loc": loc, "message": message})
+            return
         self.obligations.append((rule, f"{function}:{construct}", False, True))
         if any(f.key == key for f in self.findings):
             return
@@ -97,6 +104,8 @@ def finish(ctx: Ctx, level_explanation: str, out=sys.stdout) -> int:
     for f, k in known_hits:
         print(f"KNOWN-FINDING: property={ctx.prop} {k.get('what', f.message)} [{f.key}]", file=out)
     replay_paths = []
+    for o in ctx.out_of_scope:
+        print(f"NOTE property={ctx.prop}: a rule instance outside this property's scope fails (reported by the properties it is a necessary condition of): {o['key']}", file=out)
     for i, f in enumerate(violations):
         rp = os.path.join(OUT, "replays", f"{ctx.prop}-{f.rule}-{i}.json")
         with open(rp, "w") as fh:
@@ -132,6 +141,7 @@ def finish(ctx: Ctx, level_explanation: str, out=sys.stdout) -> int:
             "undecided_listed_not_claimed": ctx.undecided[:80],
             "known_findings_reported": [f.key for f, _ in known_hits],
             "violations": [{"key": f.key, "loc": f.loc, "message": f.message} for f in violations],
+            "out_of_scope_findings": ctx.out_of_scope,
             "checker_cmd": f"/venv/bin/python -m nucsverif check {ctx.prop} --tier {ctx.tier}",
             "trusted_base": ["CPython ast module", "nucsverif program model / abstract interpreter", "rule tables under /verif/nucsverif/props"],
             "exhaustive": True,
